@@ -116,6 +116,7 @@ def configs(tier):
                 cfgs.append({'kind': 'numgrad', 'space': sp, 'method': meth, 'name': nm})
     # simple_functional: which of the ingredients are given, and in which form
     for sp in ('rn3', 'rn3wa', 'ud3'):
+        cfgs.append({'kind': 'simple', 'space': sp, 'form': 'identity', 'given': 'grad'})
         for form in ('callables', 'operators'):
             for given in ('grad', 'grad+conj_grad', 'all'):
                 cfgs.append({'kind': 'simple', 'space': sp, 'form': form, 'given': given})
@@ -325,6 +326,12 @@ def _build(cfg):
         info = FR.info(cfg['space'])
         sp = info.space
         ops = cfg['form'] == 'operators'
+        if cfg['form'] == 'identity':
+            # f = |x|^2 / 2: the gradient callable hands back ITS ARGUMENT (the cheapest legal form)
+            f = odl.solvers.simple_functional(sp, fcall=lambda x: 0.5 * x.inner(x),
+                                              grad=lambda x: x, grad_lip=1.0)
+            return dict(f=f, info=info, ref=lambda z: 0.5 * info.norm2(z), V=FR.V5,
+                        dom=lambda z: True)
         kw = dict(fcall=lambda x: 1.5 * x.inner(x),
                   grad=odl.ScalingOperator(sp, 3.0) if ops else (lambda x: 3.0 * x), grad_lip=3.0)
         if cfg['given'] in ('grad+conj_grad', 'all'):
@@ -512,6 +519,26 @@ def run(cfg):
             base.append(x)
             G.append(g)
             nsig += 1
+    # (b'') history: D = f.derivative(x) is the derivative AT x; Functional.derivative hands the
+    # gradient to `.T`, which is documented and implemented as a copy ("InnerProductOperator(
+    # self.copy())"), so D must not follow the element x when the caller updates it in place later
+    if grad is not None and base:
+        for x0 in base[:2]:
+            try:
+                xe = info.elem(np.asarray(x0, float))
+                D = f.derivative(xe)
+                v0 = [float(np.real(D(info.elem(eye[k])))) for k in range(n)]
+                xe.lincomb(2.0, xe)
+                xe += info.elem(np.ones(n))
+                v1 = [float(np.real(D(info.elem(eye[k])))) for k in range(n)]
+                evals += 2 * n
+                if any(not _eq(a, b, 1e-12) for a, b in zip(v0, v1)):
+                    first.setdefault('derivative_follows_later_updates_of_the_base_point',
+                                     'D = f.derivative(x), x=%s: D(e_k)=%s; after x was updated in '
+                                     'place (x <- 2x + 1) the same D gives %s'
+                                     % (np.asarray(x0).tolist(), v0, v1))
+            except Exception:
+                pass        # failures of derivative() itself are judged in (b)
     # (b') the same at base points of tiny magnitude (x * 2^-30, steps scaled alike): exact tests in
     # a gradient ("norm == 0") must not be tolerance-based ones.  Only where the values themselves
     # are of the order of the scale (norms, Huber, quadratic terms), so that the difference
